@@ -92,6 +92,21 @@ def shrink_regrow_scenarios(rng, n):
                 else:
                     t = rng.choice([x for x in stores if mc.TEMPLATES[x][2] == w] or stores)
                     b.guest(t, BASE + max(0, new - mc.TEMPLATES[t][2] + rng.choice([0, 1, 1, mc.TEMPLATES[t][2] - 1, mc.TEMPLATES[t][2]])))
+            if rng.random() < 0.35 and cur - new >= 2:
+                # a NEW area in the range the shrink released (directly behind the shrunk one, or one byte further), used at once:
+                # it is a store of its own, and the shrunk area keeps its bounds
+                gap = rng.choice([0, 0, 1])
+                nl = max(1, cur - new - gap)
+                b.api(op="mem_read_bytes", addr=BASE, len=min(new, 4))
+                b.api(op="mem_init_area", start=BASE + new + gap, data=[rng.randrange(1, 256) for _ in range(nl)])
+                b.api(op="mem_read_bytes", addr=BASE + new + gap, len=nl)
+                b.api(op="mem_write_bytes", addr=BASE + new + gap, data=[0x5a] * min(nl, 3))
+                if nl >= 4:
+                    b.guest("load32", BASE + new + gap)
+                    b.guest("store32", BASE + new + gap + nl - 4)
+                b.api(op="mem_read_bytes", addr=BASE + max(0, new - 2), len=4)
+                scs.append(b.scenario())
+                break
             if rng.random() < 0.7:
                 grown = new + rng.choice([1, 4, 8, cur - new, cur - new + 4, 16])
                 b.api(op="mem_resize_section", start=BASE, new=grown)
@@ -101,7 +116,8 @@ def shrink_regrow_scenarios(rng, n):
                 cur = grown
             else:
                 cur = new
-        scs.append(b.scenario())
+        else:
+            scs.append(b.scenario())
     return scs
 
 
@@ -114,6 +130,12 @@ def api_scenarios(rng, n, length):
             t = rng.random()
             if t < 0.07:
                 resize(rng, b, ars)
+            elif t < 0.11:
+                # an "anywhere" block is a store of its own: fresh range, holds what is written to it
+                ln = rng.choice([8, 16, 48, 64, 100])
+                idx = b.api(op="mem_init_zero_anywhere", len=ln)
+                b.api(op="mem_write_bytes", addr={"ref": idx, "plus": rng.choice([0, 3, ln - 4])}, data=[rng.randrange(1, 256) for _ in range(4)])
+                b.api(op="mem_read_bytes", addr={"ref": idx}, len=ln)
             elif t < 0.30:
                 ln = pick_len(rng, ars)
                 b.api(op="mem_read_bytes", addr=pick_addr(rng, ars, ln if ln < 64 else 1), len=ln)
